@@ -248,6 +248,11 @@ def r_json_fields(ctx):
         ok = ex is None or (isinstance(ex, ast.Constant) and ex.value == "problem") or \
             (isinstance(ex, (ast.Set, ast.List, ast.Tuple)) and [ast.unparse(e) for e in ex.elts] == ["'problem'"])
         ok = ok and "include" not in kw
+        # any other filter of the dump (exclude_defaults / exclude_unset / exclude_none, by_alias, round_trip ...) drops or
+        # renames reported values: only the layout (`indent`) and the exclusion of `problem` are allowed
+        dropping = [k for k in kw if k not in ("indent", "exclude")]
+        if dropping:
+            ok = False
     if ok:
         ctx.ok("R-JSON-FIELDS", "to_json dumps every field except `problem`")
     else:
@@ -469,4 +474,11 @@ def r_gantt_buffer(ctx):
     ctx.floor("R-GANTT-BUFFER", "configurations with buffers", n, 4)
 
 
-C17_RULES = [r_gantt, r_gantt_buffer]
+def r_bar_is_start_to_end(ctx):
+    """task view draws (start, duration): the bar ends at the reported end only if duration == end - start in the solution
+    object - how build_solution extracts start / end / duration is decided by R-EXTRACT (shared with C11)"""
+    from rules import solution
+    solution.r_extract(ctx)
+
+
+C17_RULES = [r_gantt, r_gantt_buffer, r_bar_is_start_to_end]
